@@ -192,7 +192,8 @@ def check(ctx):
             cases = [e["inp"] for e in fams[fam]]
             if fam == "utmp":
                 cases = cases + [{"fam": "utmp", "threads": 4, "calls": 12, "n": 300}]
-            res, crash = run_worker(fam, cases, env, namespace=ns)
+            wenv = dict(env, PSUTIL_DEBUG="1") if fam == "args" else env     # debug messages format their arguments too
+            res, crash = run_worker(fam, cases, wenv, namespace=ns)
             if fam == "utmp":
                 tr = res.pop()
                 cases.pop()
